@@ -28,7 +28,7 @@ func init() {
 func genDeterminismFacts(repo string, emit func(name, leanDef string, err error)) {
 	ix, err := loadIndex(repo)
 	if err != nil {
-		for _, n := range []string{"mapRangeSites", "mapRangeUnresolved", "ambientUses", "ambientTelemetry", "oracleCacheWriters", "oracleUnguardedTxWriters", "oracleGuardedTxWriters"} {
+		for _, n := range []string{"mapRangeSites", "mapRangeUnresolved", "ambientUses", "ambientTelemetry", "oracleCacheWriters", "oracleUnguardedTxWriters", "oracleGuardedTxWriters", "positionDependentUses"} {
 			emit(n, "", err)
 		}
 		return
@@ -132,6 +132,72 @@ func genDeterminismFacts(repo string, emit func(name, leanDef string, err error)
 			})
 		}
 	}
+	// ---- position-dependent code in functions that range over a map: `if i == len(xs)-1`, `if i == 0`
+	// inside `for i, x := range xs` gives the first / last element a special role, which makes the order
+	// of xs (possibly derived from the map's iteration order) observable
+	var positional []string
+	mapFuncs := map[*xFunc]bool{}
+	for _, pk := range ix.sortedPkgs() {
+		for _, fn := range pk.allFuncs() {
+			if !consensusFile(fn.File.Rel) || fn.Decl.Body == nil {
+				continue
+			}
+			hasMapRange := false
+			ix.walkFunc(fn, func(s *xScope, n ast.Node, stack []ast.Node) {
+				if r, ok := n.(*ast.RangeStmt); ok && s.kind(r.X) == "map" {
+					hasMapRange = true
+				}
+			})
+			if hasMapRange {
+				mapFuncs[fn] = true
+			}
+		}
+	}
+	for _, pk := range ix.sortedPkgs() {
+		for _, fn := range pk.allFuncs() {
+			if !mapFuncs[fn] {
+				continue
+			}
+			ast.Inspect(fn.Decl.Body, func(n ast.Node) bool {
+				r, ok := n.(*ast.RangeStmt)
+				if !ok {
+					return true
+				}
+				key, ok := r.Key.(*ast.Ident)
+				if !ok || key.Name == "_" {
+					return true
+				}
+				ast.Inspect(r.Body, func(m ast.Node) bool {
+					ifs, ok := m.(*ast.IfStmt)
+					if !ok {
+						return true
+					}
+					ast.Inspect(ifs.Cond, func(c ast.Node) bool {
+						be, ok := c.(*ast.BinaryExpr)
+						if !ok {
+							return true
+						}
+						switch be.Op {
+						case token.EQL, token.NEQ, token.LSS, token.GTR, token.LEQ, token.GEQ:
+							for _, pair := range [][2]ast.Expr{{be.X, be.Y}, {be.Y, be.X}} {
+								if id, ok := pair[0].(*ast.Ident); ok && id.Name == key.Name {
+									other := srcText(pair[1])
+									if other == "0" || strings.HasPrefix(other, "len(") {
+										positional = append(positional, fmt.Sprintf("%s:%s:%s", fn.File.Rel, fn.QName(), srcText(be)))
+									}
+								}
+							}
+						}
+						return true
+					})
+					return true
+				})
+				return true
+			})
+		}
+	}
+	sort.Strings(positional)
+	emit("positionDependentUses", "/-- in functions that range over a Go map: conditions that single out the first / last index of a slice loop -/\ndef positionDependentUses : List String := "+leanStrListNL(positional), nil)
 	sort.Strings(sites)
 	sort.Strings(unresolved)
 	sort.Strings(ambient)
